@@ -148,6 +148,17 @@ def rule_r8(ctx, prog, bodies, rule="R8"):
         ordinal = {}
         for b in group:
             for bb, t in b.calls():
+                nm0 = callee_name(t)
+                if nm0 in ("ncols", "nrows") and "ndarray" in (t["callee"].get("path") or "") and len(t["args"]) == 1:
+                    # `a.ncols()` / `a.nrows()` on a 2-D receiver: len_of(Axis(1)) / len_of(Axis(0)) – an implicit constant axis
+                    n_sites += 1
+                    ordinal[nm0] = ordinal.get(nm0, 0) + 1
+                    k0 = 1 if nm0 == "ncols" else 0
+                    okk = fixed is not None and not aps       # a 2-D routine whose contract fixes one axis role fixes the other too
+                    ctx.ob(rule, "%s/%s#%d/arg0" % (short(root.key), nm0, ordinal[nm0]), okk, b.where(bb, "term"),
+                           "implicit constant Axis(%d) in a routine with documented axis roles" % k0 if okk else
+                           "`%s()` fixes Axis(%d) in a routine whose axis roles are not fixed by its contract" % (nm0, k0), what="constant axis")
+                    continue
                 for ai, aty in enumerate(t["arg_tys"]):
                     if aty != AXIS_TY and aty != "&" + AXIS_TY:
                         continue
